@@ -143,7 +143,7 @@ def sequences(acc, tier, idx, n):
 def meta(tier):
     q = tier == 'quick'
     return {
-        'rule': 'macro definitions: 6 operand patterns x every sequence of 1..3 (thorough 4) step templates of the pattern\'s catalogue '
+        'rule': 'macro definitions: 7 operand patterns (incl. a relative operand written in braces, forwarded to an instruction that reads a bare operand as absolute) x every sequence of 1..3 (thorough 4) step templates of the pattern\'s catalogue '
                 '(12-bit steps, relative-address steps, register / numeric / indirect / enumeration operands, every placeholder kind, '
                 'expressions around placeholders), as the only variant and as the second of two variants; invocations: every '
                 'combination of operand alternatives (literals, backward and forward labels, label expressions, registers); '
